@@ -935,6 +935,8 @@ def gen_rt(seed: int, tier: str = "quick") -> Dict[str, Any]:
     cfg = {"cache": rng.random() < 0.5, "lazy": rng.random() < 0.7, "debug": False, "mli": 100,
            "start_seed": None, "connect_seed": None, "order_seed": None, "iteration_cost": 0.0,
            "time_resolution": tr, "rt_factor": f if rt_on else None, "rt_strict": rng.random() < 0.3}
+    if rng.random() < 0.2:
+        cfg["setup_gap"] = period * rng.choice([0.5, 2, 5])     # time passes between start() and run()
     sc = {"groups": groups, "sims": sims, "conns": conns, "until": until, "config": cfg,
           "rt": {"f": f, "tr": tr, "dyadic": dyadic, "durations": durations, "blocking": blocking}}
     repair_cycles(sc, rng)
